@@ -549,6 +549,9 @@ pub fn run(args: &Args) -> Value {
         ("C04", None, QmcSpec { nvars: 3, bonds: vec![exch(vec![0, 1], 0.5, 1.0, 0.5), exch(vec![1, 2], 1.0, 0.25, 1.0), exch(vec![0, 2], 0.25, 0.5, 0.75),
             BondSpec { kind: 3, mat: vec![0.75, 0.25], vars: vec![0] },
             BondSpec { kind: 2, mat: vec![0.25, 0.5, 0.5, 0.75, 0.5, 0.25, 1.0, 2.5], vars: vec![0, 1, 2] }], state: vec![false, true, false], loops: true, hb: false }),
+        // a table whose diagonal becomes all zero through the offset constructor, listed BEFORE the other terms, with heat bath
+        ("C02,C04", None, QmcSpec { nvars: 2, bonds: vec![BondSpec { kind: 3, mat: vec![1.25, 1.25], vars: vec![0] }, cst(0, 0.75), cst(1, 0.5),
+            BondSpec { kind: 2, mat: vec![2.0, 0.5, 0.5, 2.0], vars: vec![0, 1] }], state: vec![true, true], loops: false, hb: true }),
         // a term on no variables (pure energy shift; its operators form clusters by themselves, fix 2af70d2)
         ("C04", None, QmcSpec { nvars: 2, bonds: vec![cst(0, 1.0), cst(1, 0.5), BondSpec { kind: 2, mat: vec![2.0, 1.0, 1.0, 2.0], vars: vec![0, 1] },
             BondSpec { kind: 2, mat: vec![1.5], vars: vec![] }], state: vec![false, true], loops: false, hb: false }),
